@@ -458,60 +458,64 @@ def fresh_file_rule(prog, res, rule='fresh-file'):
     # ---- fresh-file: the destination holds the bytes of this save only -----------------------------
     # std::ios openmode bits (libstdc++): app=1 ate=2 binary=4 in=8 out=16 trunc=32.  `out` alone truncates; `in|out`
     # keeps what an existing longer file holds after the bytes written now; `app` writes behind the old content
-    wf = prog.fn('ezc3d::c3d::write')
-    RW = Renderer(wf)
+    wf0 = prog.fn('ezc3d::c3d::write')
     nopen = 0
-    for n in wf.nodes:
-        cal = n.get('callee', {})
-        if not str(cal.get('class', '')).startswith(('std::basic_fstream', 'std::basic_ofstream')):
-            continue
-        if not ((n['k'] in ('CXXConstructExpr', 'CXXTemporaryObjectExpr') and n.get('args')) or (n['k'] == 'CXXMemberCallExpr' and cal.get('name') == 'open')):
-            continue
-        args = n.get('args', []) if n['k'] != 'CXXMemberCallExpr' else wf.call_args(n)
-        if not args:
-            continue
-        # only the first open decides what the file holds before this save writes: a later re-open of the file
-        # this very save has just produced must, on the contrary, keep it
-        gw = wf.events()
-        vme = gw.vertex_of.get(n['id'])
-        earlier = False
-        for n2 in wf.nodes:
-            c2 = n2.get('callee', {})
-            if n2['id'] == n['id'] or not str(c2.get('class', '')).startswith(('std::basic_fstream', 'std::basic_ofstream')):
-                continue
-            if (n2['k'] in ('CXXConstructExpr', 'CXXTemporaryObjectExpr') and n2.get('args')) or (n2['k'] == 'CXXMemberCallExpr' and c2.get('name') == 'open'):
-                v2 = gw.vertex_of.get(n2['id'])
-                if v2 is not None and vme is not None and vme in gw.reach([v2]) and not (v2 in gw.reach([vme])):
-                    earlier = True
-        if earlier:
-            continue
-        nopen += 1
-        inst = 'open mode of the output stream'
-        is_of = str(cal.get('class', '')).startswith('std::basic_ofstream')
-        mode = None
-        if len(args) >= 2:
-            mn = wf.nodes[wf.strip(args[1], 'all')]
-            if mn['k'] == 'CXXDefaultArgExpr':
-                mode = 16 if is_of else 24
-            else:
-                from paths import const_value
-                mode = const_value(wf, args[1])
-        else:
-            mode = 16 if is_of else 24
-        if mode is None:
-            res.undecided(rule, inst, wf.loc(n['id']), 'the open mode is not a constant the rule can read (%s) [shape not read by the rule]' % (RW.render(args[1]) if len(args) > 1 else ''), function=wf.sig, expr='openmode')
-            continue
-        if is_of:
-            mode |= 16
-        if mode & 1:
-            res.viol(rule, inst, wf.loc(n['id']), 'the destination is opened in append mode: the bytes of this save follow whatever the file held before', function=wf.sig, expr='openmode')
-        elif not (mode & 16):
-            res.viol(rule, inst, wf.loc(n['id']), 'the destination is not opened for output (mode %d)' % mode, function=wf.sig, expr='openmode')
-        elif (mode & 8) and not (mode & 32):
-            res.viol(rule, inst, wf.loc(n['id']), 'the destination is opened in|out without trunc: an existing longer file keeps its tail after the bytes written now, so the saved file is not a function '
-                     'of the object alone', function=wf.sig, expr='openmode')
-        else:
-            res.ok(rule, inst, wf.loc(n['id']), 'mode %d: an existing file is truncated when it is opened' % mode, function=wf.sig, expr='openmode')
+    # c3d::write and the file-local helpers it calls (a helper that opens the stream and hands it back)
+    fam_ = [wf0] + [prog.funcs[c_['callee']['usr']] for c_ in wf0.calls() if c_['callee'].get('inrepo') and c_['callee'].get('usr') in prog.funcs and
+                    (prog.funcs[c_['callee']['usr']].rec.get('internal') or '(anonymous namespace)' in prog.funcs[c_['callee']['usr']].qname) and prog.funcs[c_['callee']['usr']].body is not None]
+    for wf in fam_:
+      RW = Renderer(wf)
+      for n in wf.nodes:
+          cal = n.get('callee', {})
+          if not str(cal.get('class', '')).startswith(('std::basic_fstream', 'std::basic_ofstream')):
+              continue
+          if not ((n['k'] in ('CXXConstructExpr', 'CXXTemporaryObjectExpr') and n.get('args')) or (n['k'] == 'CXXMemberCallExpr' and cal.get('name') == 'open')):
+              continue
+          args = n.get('args', []) if n['k'] != 'CXXMemberCallExpr' else wf.call_args(n)
+          if not args or cal.get('copy') or cal.get('move'):
+              continue      # (a stream moved out of a helper was opened there)
+          # only the first open decides what the file holds before this save writes: a later re-open of the file
+          # this very save has just produced must, on the contrary, keep it
+          gw = wf.events()
+          vme = gw.vertex_of.get(n['id'])
+          earlier = False
+          for n2 in wf.nodes:
+              c2 = n2.get('callee', {})
+              if n2['id'] == n['id'] or not str(c2.get('class', '')).startswith(('std::basic_fstream', 'std::basic_ofstream')):
+                  continue
+              if (n2['k'] in ('CXXConstructExpr', 'CXXTemporaryObjectExpr') and n2.get('args')) or (n2['k'] == 'CXXMemberCallExpr' and c2.get('name') == 'open'):
+                  v2 = gw.vertex_of.get(n2['id'])
+                  if v2 is not None and vme is not None and vme in gw.reach([v2]) and not (v2 in gw.reach([vme])):
+                      earlier = True
+          if earlier:
+              continue
+          nopen += 1
+          inst = 'open mode of the output stream'
+          is_of = str(cal.get('class', '')).startswith('std::basic_ofstream')
+          mode = None
+          if len(args) >= 2:
+              mn = wf.nodes[wf.strip(args[1], 'all')]
+              if mn['k'] == 'CXXDefaultArgExpr':
+                  mode = 16 if is_of else 24
+              else:
+                  from paths import const_value
+                  mode = const_value(wf, args[1])
+          else:
+              mode = 16 if is_of else 24
+          if mode is None:
+              res.undecided(rule, inst, wf.loc(n['id']), 'the open mode is not a constant the rule can read (%s) [shape not read by the rule]' % (RW.render(args[1]) if len(args) > 1 else ''), function=wf.sig, expr='openmode')
+              continue
+          if is_of:
+              mode |= 16
+          if mode & 1:
+              res.viol(rule, inst, wf.loc(n['id']), 'the destination is opened in append mode: the bytes of this save follow whatever the file held before', function=wf.sig, expr='openmode')
+          elif not (mode & 16):
+              res.viol(rule, inst, wf.loc(n['id']), 'the destination is not opened for output (mode %d)' % mode, function=wf.sig, expr='openmode')
+          elif (mode & 8) and not (mode & 32):
+              res.viol(rule, inst, wf.loc(n['id']), 'the destination is opened in|out without trunc: an existing longer file keeps its tail after the bytes written now, so the saved file is not a function '
+                       'of the object alone', function=wf.sig, expr='openmode')
+          else:
+              res.ok(rule, inst, wf.loc(n['id']), 'mode %d: an existing file is truncated when it is opened' % mode, function=wf.sig, expr='openmode')
     res.minimum('opens of the output stream in c3d::write', nopen, 1)
 
 
